@@ -63,8 +63,13 @@ Register(c) == /\ pc[c] = "allocated"
                /\ pending' = pending \cup {cid[c]} /\ pc' = [pc EXCEPT ![c] = "registered"]
                /\ UNCHANGED <<nextId, cid, chan, result, c2s, s2c, seen, answered, junk, cur, writerShut, reader, notes, subEnded>>
 Done(c, r) == /\ pc' = [pc EXCEPT ![c] = "done"] /\ result' = [result EXCEPT ![c] = r]
+\* a write fails for certain once fail_all_pending has shut the writer; it MAY already fail as soon as the peer has
+\* closed or broken the connection (the WebSocket transport refuses writes after the peer's close, TCP may reset)
+FaultKinds == {"close", "malformed"}
+Faulted == reader # "alive" \/ cur.kind \in FaultKinds \/ \E i \in 1..Len(s2c) : s2c[i].kind \in FaultKinds
 Write(c) == /\ pc[c] = "registered"
-            /\ IF writerShut
+            /\ \E ok \in (IF writerShut THEN {FALSE} ELSE IF Faulted THEN BOOLEAN ELSE {TRUE}) :
+               IF ~ok
                THEN /\ pending' = pending \ {cid[c]}            \* write fails: the caller removes its entry
                     /\ Done(c, [cls |-> "err", id |-> 0, tag |-> 0]) /\ UNCHANGED c2s
                ELSE /\ c2s' = Append(c2s, [id |-> cid[c], tag |-> c])
